@@ -11,6 +11,7 @@ import (
 	"free5gclib/nas/nasMessage"
 	"free5gclib/nas/nasTestpacket"
 	"free5gclib/ngap"
+	"free5gclib/ngap/ngapType"
 	"free5gclib/openapi/models"
 	"net"
 
@@ -97,7 +98,17 @@ func EstablishPDU(sst int32, sd string, ue *tglib.RanUeContext, conn *sctp.SCTPC
 	// Recover assigned IP and TEID for the session.
 	// Only works if 5G-EEA0 is used as cypher
 
-	PDUSessionResourceSetupItemSUReq := msg.InitiatingMessage.Value.PDUSessionResourceSetupRequest.ProtocolIEs.List[2].Value.PDUSessionResourceSetupListSUReq.List[0]
+	// The list is not always the third IE: an AMF may put the optional RAN Paging Priority before it (TS 38.413 9.2.1.1)
+	var PDUSessionResourceSetupListSUReq *ngapType.PDUSessionResourceSetupListSUReq
+	for _, ie := range msg.InitiatingMessage.Value.PDUSessionResourceSetupRequest.ProtocolIEs.List {
+		if ie.Id.Value == ngapType.ProtocolIEIDPDUSessionResourceSetupListSUReq {
+			PDUSessionResourceSetupListSUReq = ie.Value.PDUSessionResourceSetupListSUReq
+		}
+	}
+	if PDUSessionResourceSetupListSUReq == nil || len(PDUSessionResourceSetupListSUReq.List) == 0 {
+		ManageError("Error establishing PDU", fmt.Errorf("no PDU session resource setup list in the request"))
+	}
+	PDUSessionResourceSetupItemSUReq := PDUSessionResourceSetupListSUReq.List[0]
 
 	clientip := DecodePDUSessionNASPDU(PDUSessionResourceSetupItemSUReq.PDUSessionNASPDU.Value)
 	teid, upfip := DecodePDUSessionResourceSetupRequestTransfer(PDUSessionResourceSetupItemSUReq.PDUSessionResourceSetupRequestTransfer)
